@@ -1,0 +1,11 @@
+//go:build verif
+
+package gortsplib
+
+import (
+	"github.com/bluenviron/gortsplib/v5/internal/asyncprocessor"
+)
+
+// VerifAsyncProcessor makes internal/asyncprocessor.Processor reachable from the
+// verification harness, which lives outside this module (build tag verif).
+type VerifAsyncProcessor = asyncprocessor.Processor
